@@ -522,9 +522,21 @@ def install():
         if gd["flags"][r["name"]]["conditional"]:
             ctx.count("conditional_completions")
             probs = ctx._probs
+            if ctx.world["flags"].get("resolve_conditionals_at_submission"):
+                # a conditional that runs to completion lies on a taken path: at submission exactly one of its
+                # children must have been resolved to 1.0 and the others to 0.0
+                snap0 = ctx.prob_snapshot.get((r["graph"],), {}) if hasattr(ctx, "prob_snapshot") else {}
+                if snap0 and all(k in snap0 for k in kids):
+                    ctx.count("resolution_snapshots_judged")
+                    if sorted(snap0[k] for k in kids) != [0.0] * (len(kids) - 1) + [1.0]:
+                        ctx.violate("C07", "not_resolved_to_one_child_at_submission",
+                                    f"{r['uname']} completed; children at submission {[(k, snap0[k]) for k in kids]}")
             if len(released) != 1:
-                if not all(probs[c] <= 1e-12 for c in kids):
-                    ctx.violate("C07", "not_exactly_one_child", f"{r['uname']} released {rel_names} with probs {probs}")
+                # releasing nothing is only legitimate when every child had already been cancelled (by a policy that was
+                # offered the children ahead of time) before this completion was notified
+                if not all(ctx._child_states.get(c) == "CANCELLED" for c in kids):
+                    ctx.violate("C07", "not_exactly_one_child", f"{r['uname']} released {rel_names} with probs {probs}, "
+                                                                  f"child states {ctx._child_states}")
             else:
                 c = released[0].name
                 if c not in kids:
